@@ -192,6 +192,26 @@ func cmdCheck(args []string) int {
 		files = append(files, gen...)
 		fmt.Printf("generated %d router harness files from the current tree\n", len(gen))
 	}
+	if *prop == "C07" && os.Getenv("SYMGO_NO_GEN") == "" {
+		// per-model isolation harnesses are produced from the current tree's types on every run
+		gtmp, gerr := os.MkdirTemp("", "symgo-modelgen-")
+		if gerr != nil {
+			fmt.Fprintln(os.Stderr, gerr)
+			return 2
+		}
+		if os.Getenv("SYMGO_KEEP_GEN") == "" {
+			defer os.RemoveAll(gtmp)
+		} else {
+			fmt.Println("generated files kept in", gtmp)
+		}
+		gen, gerr := genModelHarnesses(gtmp, *prop)
+		if gerr != nil {
+			fmt.Fprintln(os.Stderr, "model harness generation failed:", gerr)
+			return 2
+		}
+		files = append(files, gen...)
+		fmt.Printf("generated %d model harness files from the current tree\n", len(gen))
+	}
 	ld, err := load(*prop, files)
 	if err != nil {
 		fmt.Fprintln(os.Stderr, "load failed:", err)
